@@ -575,12 +575,26 @@ class Gen:
             return (P(body) if body else b'\x03\x00') + O('EVAL')
         if k == 'MERKLE':
             body = self.block(d, 3) or O('TRUE')
+            if rng.random() < 0.06:
+                # the committed branch is the EMPTY script, a script of the
+                # witness's own parked underneath
+                sib = bytes(32)
+                import hashlib as _h
+                c1 = _h.sha256(_h.sha256(b'').digest()).digest()
+                c2 = _h.sha256(sib).digest()
+                root_ = bytes(a ^ b for a, b in zip(c1, c2))
+                return P(body) + P(sib) + b'\x03\x00' + O('MERKLEVAL') + root_
             w = merkle_wrap(body)
             if rng.random() < 0.15:
                 w = w[:-1] + bytes([w[-1] ^ 1])
             return w
         body = self.block(d, 3) or O('TRUE')
         pk = rng.choice(PKS)
+        if rng.random() < 0.06:
+            # a root committing to the EMPTY script; a script parked under
+            # the empty item must not run in its place
+            return P(body) + b'\x03\x00' + P(pk, taproot_root(pk, b'')) \
+                + O('TAPROOT') + b'\x00'
         root = taproot_root(pk, body)
         if rng.random() < 0.15:
             root = bytes([root[0] ^ 1]) + root[1:]
